@@ -432,36 +432,56 @@ impl Prop for C19 {
     }
   }
   fn plan(&self, _env: &Env) -> Vec<TaskSpec> {
-    vec![task("all", 4)]
+    vec![task("all", 8)]
   }
   fn run(&self, env: &Env, _t: &str, shard: usize, nshards: usize, out: &mut Out) {
     let ev = |e: &Env, o: &mut Out, s: &str, cs: &Case| self.eval(e, o, s, cs);
+    // The finite spaces are evaluated FIRST in every shard - each shard is a fresh process - and each shard takes them in a
+    // different order (ascending, descending, seed-shuffled ...): whichever stem / branch / pillar is the first to ask in a
+    // process must not determine what the others get (tables built lazily from the first request).
+    {
+      let mut cases: Vec<(&'static str, Vec<i64>)> = vec![];
+      for s in 0..10 {
+        cases.push(("stem", vec![s]));
+        for t in 0..10 {
+          cases.push(("stem_pair", vec![s, t]));
+        }
+        for b in 0..12 {
+          cases.push(("stem_branch", vec![s, b]));
+        }
+      }
+      for b in 0..12 {
+        cases.push(("branch", vec![b]));
+      }
+      for p in 0..60 {
+        cases.push(("pillar", vec![p]));
+      }
+      match shard {
+        0 => {}
+        1 => cases.reverse(),
+        k => {
+          // Fisher-Yates with a splitmix stream of (seed, shard)
+          let mut x = env.seed ^ (k as u64).wrapping_mul(0x9E37_79B9_7F4A_7C15);
+          let mut nextu = || { x = x.wrapping_add(0x9E37_79B9_7F4A_7C15); let mut z = x; z = (z ^ (z >> 30)).wrapping_mul(0xBF58_476D_1CE4_E5B9); z = (z ^ (z >> 27)).wrapping_mul(0x94D0_49BB_1331_11EB); z ^ (z >> 31) };
+          for i in (1..cases.len()).rev() {
+            let j = (nextu() % (i as u64 + 1)) as usize;
+            cases.swap(i, j);
+          }
+        }
+      }
+      out.class(match shard { 0 => "finite_spaces_first_in_a_fresh_process_ascending", 1 => "finite_spaces_first_in_a_fresh_process_descending", _ => "finite_spaces_first_in_a_fresh_process_shuffled" });
+      let mut rev = Reverse::new(1);
+      for (sub, a) in &cases {
+        run_case(env, out, sub, &Case::ints(a), &ev);
+        rev.note(sub, &Case::ints(a));
+      }
+      // the same finite spaces once more in the opposite order (answers must not depend on what was asked before)
+      rev.run(env, out, &ev);
+    }
     // route equivalence of the day objects this property reads (see routes.rs)
     prop_run(env, out, "routes", env.tier.pick(1600, 64000) / nshards as u32, 8800 + shard as u64, crate::routes::date_strategy(), &ev);
     out.set_exhaustive("routes", false);
     if shard == 0 {
-      let mut rev = Reverse::new(1);
-      let mut both = |o: &mut Out, sub: &str, a: &[i64]| {
-        run_case(env, o, sub, &Case::ints(a), &ev);
-        rev.note(sub, &Case::ints(a));
-      };
-      for s in 0..10 {
-        both(out, "stem", &[s]);
-        for t in 0..10 {
-          both(out, "stem_pair", &[s, t]);
-        }
-        for b in 0..12 {
-          both(out, "stem_branch", &[s, b]);
-        }
-      }
-      for b in 0..12 {
-        both(out, "branch", &[b]);
-      }
-      for p in 0..60 {
-        both(out, "pillar", &[p]);
-      }
-      // the same finite spaces once more in the opposite order (answers must not depend on what was asked before)
-      rev.run(env, out, &ev);
       run_case(env, out, "misc", &Case::ints(&[0]), &ev);
       for m in 1..=12i64 {
         for d in 1..=month_len_nominal(2024, m) {
